@@ -363,6 +363,34 @@ def run(ctx):
                 li = expr_literal(v)
                 if li is not None and not li[1]:
                     bad = bad or "the operator returns the *in*equality of `%s`" % li[0][:60]
+        # Packet: a path that can answer "equal" has compared the payloads, unless it has established that there is none to compare
+        if f.params[0]["t"].get("rec") == PKT:
+            for p in paths.enumerate_paths(f):
+                r = p.returns()
+                if r is None or p.end != "exit" or r.get("e") is None:
+                    continue
+                v = p.value_of(r["e"], before=r["id"])
+                cv = const_value(v)
+                lits = [literal(a[2], a[4], a[5]) for a in p.atoms if a[0] == "cmp" and a[2] in ("==", "!=")]
+                lits = [x for x in lits if x is not None]
+                if cv == 0 or any(not x[1] for x in lits):
+                    continue  # answers "different"
+                rl = expr_literal(v) if cv is None else None
+                compared = any("getPayload()" in x[0] for x in lits) or (rl is not None and "getPayload()" in rl[0]) or \
+                    any(x.get("k") == "call" and (callee_name(x) or "").endswith("operator==") and "Payload" in (callee_name(x) or "") for x in walk(facts.expand(f, v)))
+                empty = False
+                for a in p.atoms:
+                    if a[0] == "cmp" and "getPayloadLength" in (a[1] + a[3]) and literal(a[2], a[4], a[5]) is None:
+                        for x, y, op in ((a[4], a[5], a[2]), (a[5], a[4], facts._flip_op(a[2]))):
+                            if const_value(y) == 0 and op in ("<=", "=="):
+                                empty = True
+                            if const_value(y) == 1 and op == "<":
+                                empty = True
+                    if a[0] == "truth" and a[2] is False and "getPayloadLength" in a[1] and "&&" not in a[1]:
+                        empty = True
+                if not compared and not empty:
+                    bad = bad or "a path that can answer `equal` (returns `%s`) has neither compared the payloads nor found the payload length to be 0; its last " \
+                        "condition is `%s`" % (canon(v)[:50], (p.atoms[-1][1][:60] + (" " + str(p.atoms[-1][2]))) if p.atoms else "none")
         if nlit:
             res.check(bad is None, "C14-R3", "%s:decides-by-mismatch" % tag, f.loc, "false exactly on the paths that found a difference; returned expressions are positive equalities",
                       "%s: %s" % (f.name, bad))
